@@ -19,7 +19,7 @@ ID = "C06"
 LEVEL = "model_checking"
 RULE = (
     "all pairs of label arrays of G1(3,3), G1(4,2) (thorough: G1(4,3), G2(2,2,3), G3(1,2,2,3) x 64 refs) x reference label in {1..4} x "
-    "prediction selector in all non-empty subsets of {1..4} (python ints, numpy ints, lists); all mask pairs of small 1-D/2-D/3-D grids x "
+    "prediction selector in all non-empty subsets of {1..4} (python ints, numpy ints, lists) + absent labels outside the dtype range (l+2^bits) for uint8/int8/uint16; all mask pairs of small 1-D/2-D/3-D grids x "
     "mask dtypes without selection; run-length volumes RLE(s) with lengths in {1,255,256,257,65535,65536}; clDice on 2-D/3-D mask pairs. "
     "non-trivial = selected masks intersect and differ; distinct by (metric family, selected mask pair)"
 )
@@ -187,6 +187,25 @@ def run_case(case, acc):
                             ok2, b = _call(acc, case, m, lambda: Metric[m](P, R, sel[0], rl))
                             if ok1 and ok2 and float(a) != float(b):
                                 acc.violation(f"C06:sel:{m}:symmetry", {**case, "ref_label": rl, "sel": sel}, f"{m}(X,Y)={a} != {m}(Y,X)={b}")
+        # absent labels that do not fit the array dtype (they must select nothing, not wrap onto a present label)
+        for dt in ("uint8", "int8", "uint16"):
+            if k > np.iinfo(dt).max:
+                continue
+            P, R = pred.astype(dt), ref.astype(dt)
+            span = 2 ** (8 * np.dtype(dt).itemsize)
+            for rl in (1, 2):
+                X = rv.get(rl, empty)
+                for base in (1, 2):
+                    for form, present in ((base + span, []), ([base + span], []), ([3, base + span], [3]), ([base, base + 256 * span], [base]), (np.int64(base + span), [])):
+                        Y = frozenset().union(*[pv.get(s_, empty) for s_ in present]) if present else empty
+                        nX, nY, nI = len(X), len(Y), len(X & Y)
+                        got = {m: _call(acc, case, m, lambda m=m: Metric[m](R, P, rl, form)) for m in METS}
+                        acc.state("oor", shape, sorted(X), sorted(Y))
+                        _judge_counts(acc, {**case, "dtype": dt, "ref_label": rl, "sel": repr(form)}, f"dtype={dt} ref_label={rl} out-of-range pred_sel={form!r}", nX, nY, nI, got, "sel_out_of_range")
+                # reference label beyond the dtype: selects nothing
+                Y = pv.get(1, empty)
+                got = {m: _call(acc, case, m, lambda m=m: Metric[m](R, P, 1 + span, [1])) for m in METS}
+                _judge_counts(acc, {**case, "dtype": dt, "ref_label": 1 + span, "sel": [1]}, f"dtype={dt} out-of-range ref_label={1 + span}", 0, len(Y), 0, got, "ref_out_of_range")
     elif kind == "mask":
         shape = tuple(case["shape"])
         pm = sc.grid(case["pi"], shape, 1)
@@ -208,6 +227,12 @@ def run_case(case, acc):
                 ok2, b = _call(acc, case, m, lambda: Metric[m](P, R))
                 if got[m][0] and ok2 and float(got[m][1]) != float(b):
                     acc.violation(f"C06:mask:{m}:symmetry", {**case, "dtypes": [dt]}, f"{m}(X,Y)={got[m][1]} != {m}(Y,X)={b}")
+            if dt in ("bool", "uint8"):
+                for form, sel_present in (([1], True), ([2], False), ([1, 2], True), (2, False)):
+                    got = {m: _call(acc, case, m, lambda m=m: Metric[m](R, P, 1, form)) for m in METS}
+                    nY2 = nY if sel_present else 0
+                    nI2 = nI if sel_present else 0
+                    _judge_counts(acc, {**case, "dtypes": [dt], "sel": repr(form)}, f"mask dtype={dt} with selection ref=1 pred={form!r}", nX, nY2, nI2, got, "mask_sel")
     elif kind == "rle":
         pred, ref, segs = sc.rle_pair(case["i"], case["s"])
         acc.case("rle", case["s"], case["i"])
